@@ -6,7 +6,7 @@ Dst == IF FreeW = {} THEN {} ELSE {MinOf(FreeW)}
 Held(t) == {w \in FW : Owns(t, w)}
 
 Actions ==
-  {[op |-> "PollBegin"], [op |-> "PollEnd"], [op |-> "ViewWakeByRef"]}
+  {[op |-> "PollBegin", o |-> o] : o \in Orig} \cup {[op |-> "PollEnd"], [op |-> "ViewWakeByRef"]}
   \cup {[op |-> "ViewClone", w |-> w] : w \in Dst}
   \cup UNION {{[op |-> "FClone", t |-> t, w |-> w, d |-> d] : w \in Held(t), d \in Dst} : t \in Thread}
   \cup UNION {{[op |-> "FWake", t |-> t, w |-> w] : w \in Held(t)} : t \in Thread}
@@ -17,5 +17,5 @@ Actions ==
 Next == \E e \in Actions : Do(e)
 Spec == Init /\ [][Next]_vars
 (* the wake counter only grows: keep it out of the fingerprint *)
-View == <<ocount, inPoll, rec, fw, touched, seen>>
+View == <<ocount, cur, inPoll, rec, fw, touched, seen>>
 =============================================================================
